@@ -3,6 +3,7 @@ from __future__ import annotations
 
 import json
 import os
+import random
 from fractions import Fraction
 
 import shapefile
@@ -10,6 +11,7 @@ import shapely
 
 from harness import util
 from harness.gen import c15_extra as X
+from harness.gen import c15_extra6 as X6
 from harness.gen import clipgen as CG
 from harness.gen import datasets as G
 from harness.gen import geomspec as S
@@ -20,6 +22,12 @@ DRIVER = 'C15'
 REQUIRED = ['Ems.C15.index_json_roundtrip', 'Ems.C15.features_spec', 'Ems.C15.features_sorted',
             'Ems.C15.feature_index_identifies', 'Ems.C15.recorded_index_roundtrip', 'Ems.C15.multipolygon_spec',
             'Ems.C15.dbf_record_spec', 'Ems.C15.dbf_count']
+EXTRA_MODULES = globals().get('EXTRA_MODULES', []) + ['EmsModel.Props.C15More']   # B6
+REQUIRED += ['Ems.C15.features_injective', 'Ems.C15.records_injective', 'Ems.C15.features_complete',
+             'Ems.C15.multipolygon_count', 'Ems.C15.shapefile_in_step']
+EXTRA_MODULES = EXTRA_MODULES + ['EmsModel.Props.C15Regime']   # strengthen-6
+REQUIRED += ['Ems.C15.features_map_coords', 'Ems.C15.dbfRecords_map_coords', 'Ems.C15.multipolygon_map_coords',
+             'Ems.C15.features_linear', 'Ems.C15.features_drop_cell', 'Ems.C15.dbfRecords_drop_cell']
 RULE = ('datasets of every convention (holes, invalid cells, multi-kind native indexes, sheared and concave cells) x the four '
         'formats: written with the real writer (library functions and the export-geometry command, every format in turn), read '
         'back from exactly the path exported to with an independent reader (json, pyshp Reader on the three files opened by '
@@ -31,7 +39,11 @@ RULE = ('datasets of every convention (holes, invalid cells, multi-kind native i
         'in the generator\'s grid); export histories: two or three datasets exported one after the other in the same '
         'process, the later ones siblings of the first (same convention and number of cells under another grid shape, '
         'same shape with other coordinates, the same dataset again), every one of them read back and held against its own '
-        'dataset. Non-trivial: a dataset with at least one cell without polygon or a kinded native index; '
+        'dataset; cells with finite bounds and no polygon (zero-width ghost columns / zero-height ghost rows in the stored '
+        'bounds of an axis-aligned grid, coordinate values repeated three times and more); coordinate regimes (whole '
+        'degrees, k/8 .. k/64 of a degree, projected metres, metres with sub-metre parts - all exact in six decimal '
+        'places) and mixed histories (datasets of different conventions and regimes one after the other, then the first '
+        'again). Non-trivial: a dataset with at least one cell without polygon or a kinded native index; '
         'distinct by (recipe, format).')
 TRUSTED = ['json, pyshp, shapely WKT/WKB readers and writers (byte formats are the libraries\' business)']
 ASSUMPTIONS = ['shapefile rings are compared up to rotation and direction (the format prescribes ring orientation); other formats exactly',
@@ -174,7 +186,7 @@ def examine(ctx, recipe, items, export=None, before=None) -> None:
     from emsarray.operations import geometry
     from emsarray.cli import main as cli_main
     export = dict(PLAIN_EXPORT if export is None else export)
-    built = G.build(recipe)
+    built = X6.build(recipe)      # (= G.build; a cf1d recipe may describe its stored bounds by cell edges: ghost cells)
     c = G.bind(built)
     ds = built.ds
     raw = built.polys
@@ -287,8 +299,9 @@ def oracle_features(ctx, desc, fmt, c, built, expected, got, exact: bool) -> Non
 
         class _Told:
             def oracle_fail(self, signature, dd, message):
+                same = {b['recipe'].get('conv') for b in desc['before']} == {desc['recipe'].get('conv')}
                 inner.oracle_fail(signature, dd, f"{message} (exported after {len(desc['before'])} other dataset(s) "
-                                                 'of the same convention in this process)')
+                                                 + ('of the same convention ' if same else '') + 'in this process)')
         ctx = _Told()
     if len(got) != len(expected):
         ctx.oracle_fail(f'{fmt}-feature-count', d, f'{len(got)} features for {len(expected)} cells with polygons')
@@ -424,6 +437,31 @@ def run(ctx) -> None:
             ctx.guarded(lambda: examine(ctx, recipe, items, export, list(before)),
                         {'recipe': recipe, 'export': export, 'before': list(before)})
             before.append({'recipe': recipe, 'export': export})
+    # ---- strengthen-6: begin -------------------------------------------------------------------------------------
+    # (streams of their own: nothing above draws differently because of these two blocks)
+    rng6 = random.Random(f'{ctx.seed}:{int(ctx.searching)}:c15-extra6')
+    # cells that are there (finite bounds) but have no polygon: ghost columns / rows of an axis-aligned grid in stored
+    # bounds, coordinate values repeated three times and more; holes of the export like the NaN ones
+    for k in range(ctx.budget(12, 80)):
+        recipe = X6.random_flat(rng6, k)
+        export = {**random_export(rng6, k), 'cli': FORMATS[k % 4] if k % 3 == 0 else None}
+        ctx.count('flat:' + ('ghost-bounds' if recipe.get('flat') else 'repeated-values'))
+        ctx.guarded(lambda: examine(ctx, recipe, items, export), {'recipe': recipe, 'export': export})
+    # coordinate regimes (whole degrees / fine fractions of a degree / projected metres / metres with sub-metre parts)
+    # and mixed histories: datasets of different conventions and regimes exported one after the other, then the first
+    # one again; each held against its own dataset
+    for k in range(ctx.budget(8, 50)):
+        def fresh6(conv):
+            kw = {'max_w': 3, 'max_h': 2, 'coords_as': 'vars'} if conv == 'ugrid' else {'max_n': 4}
+            return G.random_recipe(rng6, conv, ctx.tier, **kw)
+        before = []
+        for how, recipe in X6.regime_history(rng6, fresh6, k):
+            export = random_export(rng6, k)
+            ctx.count(f'history:{how}')
+            ctx.guarded(lambda: examine(ctx, recipe, items, export, list(before)),
+                        {'recipe': recipe, 'export': export, 'before': list(before)})
+            before.append({'recipe': recipe, 'export': export})
+    # ---- strengthen-6: end ---------------------------------------------------------------------------------------
     if ctx.searching and ctx.driver is None:
         ctx.evaluated(len(items))
         return
